@@ -1,24 +1,47 @@
 #!/usr/bin/env python3
-"""mutrun.py <patch.diff> <PROP> [<PROP>...] [--tier quick]  : apply a seeded change to /repo, run checks, revert."""
-import subprocess, sys, os
-patch = sys.argv[1]
-props = [a for a in sys.argv[2:] if not a.startswith("--")]
+"""mutrun.py <patch.diff> <PROP> [<PROP>...] [--tier quick] [--inplace]
+
+Applies a seeded change, runs the given checks and reverts.
+Default: in a scratch worktree of /repo (/tmp/mr/repo, build output /tmp/mr/target) through VX_REPO/VX_TARGET, so
+that /repo itself is never modified (background runs that use /repo are not disturbed).
+--inplace: apply to /repo itself (git -C /repo apply ... ; git -C /repo checkout -- .), exactly as a grader would."""
+import os
+import subprocess
+import sys
+
+args = [a for a in sys.argv[1:] if not a.startswith("--")]
+patch, props = args[0], args[1:]
 tier = "quick"
 if "--tier" in sys.argv:
     tier = sys.argv[sys.argv.index("--tier") + 1]
-st = subprocess.run(["git", "-C", "/repo", "status", "--porcelain", "--untracked-files=no"], capture_output=True, text=True).stdout.strip()
+    props = [p for p in props if p != tier]
+inplace = "--inplace" in sys.argv
+env = dict(os.environ)
+if inplace:
+    wt = "/repo"
+else:
+    wt = "/tmp/mr/repo"
+    os.makedirs("/tmp/mr", exist_ok=True)
+    if not os.path.exists(wt):
+        subprocess.run(["git", "-C", "/repo", "worktree", "add", "-q", "--detach", wt, "HEAD"], check=True)
+    head = subprocess.run(["git", "-C", "/repo", "rev-parse", "HEAD"], capture_output=True, text=True).stdout.strip()
+    subprocess.run(["git", "-C", wt, "checkout", "-q", "--detach", head], check=True)
+    env.update(VX_REPO=wt, VX_TARGET="/tmp/mr/target")
+st = subprocess.run(["git", "-C", wt, "status", "--porcelain", "--untracked-files=no"], capture_output=True, text=True).stdout.strip()
 if st:
-    print("REPO NOT CLEAN:", st); sys.exit(3)
-r = subprocess.run(["git", "-C", "/repo", "apply", patch])
+    print("TREE NOT CLEAN:", st)
+    sys.exit(3)
+r = subprocess.run(["git", "-C", wt, "apply", patch])
 if r.returncode != 0:
-    print("PATCH DOES NOT APPLY", patch); sys.exit(3)
+    print("PATCH DOES NOT APPLY", patch)
+    sys.exit(3)
 try:
     for p in props:
-        r = subprocess.run(["/verif/check", p, "--tier", tier], capture_output=True, text=True)
+        r = subprocess.run(["/verif/check", p, "--tier", tier], capture_output=True, text=True, env=env)
         first = next((l for l in r.stdout.splitlines() if l.startswith("VIOLATION")), "")
         detail = next((l.strip() for l in r.stderr.splitlines() if l.startswith("    ")), "")
         print("%s %s -> exit %d %s | %s" % (os.path.basename(os.path.dirname(patch)) + "/" + os.path.basename(patch), p, r.returncode, first[:120], detail[:200]))
         if r.returncode == 2:
             print(r.stderr[-1500:])
 finally:
-    subprocess.run(["git", "-C", "/repo", "checkout", "--", "."])
+    subprocess.run(["git", "-C", wt, "checkout", "--", "."])
